@@ -711,9 +711,11 @@ PPL::Grid::relation_with(const Constraint& c) const {
           }
           break;
         }
-        // Not the first point: convert `g' to be a parameter
-        // and fall through into the parameter case.
-        Grid_Generator& gen = const_cast<Grid_Generator&>(g);
+        // Not the first point: compute the parameter `g - first_point'
+        // in a copy (this method is an observer: the generator system
+        // must not be modified, let alone with a row normalized on its
+        // own) and check it like the other parameters.
+        Grid_Generator gen(g);
         const Grid_Generator& point = *first_point;
         const Coefficient& p_div = point.divisor();
         const Coefficient& g_div = gen.divisor();
@@ -723,9 +725,14 @@ PPL::Grid::relation_with(const Constraint& c) const {
         gen.strong_normalize();
         gen.set_is_parameter();
         PPL_ASSERT(gen.OK());
+        const int sign = c.is_strict_inequality()
+          ? Scalar_Products::reduced_sign(c.expr, gen.expr)
+          : Scalar_Products::sign(c.expr, gen.expr);
+        if (sign != 0) {
+          return Poly_Con_Relation::strictly_intersects();
+        }
       }
-      FALLTHROUGH;
-      // Fall through.
+      break;
 
     case Grid_Generator::PARAMETER:
     case Grid_Generator::LINE:
